@@ -1,20 +1,55 @@
 ------------------------------ MODULE ExecMC ------------------------------
-(* Exhaustive check of the value-movement model: no sequence of transfers, failing calls and fee *)
-(* payments creates value, loses more than (admins-1) units per transaction, or goes negative.   *)
+(* Exhaustive check of the execution shell's value movement and side effects: no sequence of transfers,      *)
+(* built-in calls (IBTPs, contract invocations), failing calls and fee payments creates value, loses more     *)
+(* than (admins-1) units per transaction or goes negative (C14), and a FAILED transaction leaves nothing      *)
+(* behind besides nonce and fee - in particular none of the records a built-in call writes without journal    *)
+(* and none of the deliveries it announces (C07, C02).                                                        *)
 EXTENDS Exec
-CONSTANTS Users, Admins, MaxBal, Fees, MaxSteps
-VARIABLES bal, steps, lastLoss
-vars == <<bal, steps, lastLoss>>
+CONSTANTS Users, Admins, MaxBal, Fees, MaxSteps,
+          FeeFirst   \* BOOLEAN: TRUE = the sender of a fixed-gas call is checked for the fee BEFORE the call runs (repaired);
+                     \* FALSE = as first found: the fee is only collected afterwards
+VARIABLES bal, steps, lastLoss,
+          rec,       \* records written without journal by built-in calls (transaction records, index maps, proposals)
+          deliv,     \* deliveries announced by built-in calls (events processed at the end of the transaction)
+          last       \* [status, kind] of the last transaction
+vars == <<bal, steps, lastLoss, rec, deliv, last>>
 Accts == Users \cup Admins
-Init == bal \in [Accts -> 0..MaxBal] /\ steps = 0 /\ lastLoss = 0
+Init == bal \in [Accts -> 0..MaxBal] /\ steps = 0 /\ lastLoss = 0 /\ rec = {} /\ deliv = {} /\ last = [status |-> "none", kind |-> "none"]
+
+\* a native transfer (the body only uses journaled writes: taking the state back takes everything back)
 Step == \E from \in Accts, to \in Accts, amt \in -1..MaxBal, fee \in Fees, bodyOK \in BOOLEAN :
   LET body == IF bodyOK THEN Transfer(bal, from, to, amt) ELSE [ok |-> FALSE, bal |-> bal]
       r == ApplyTx(bal, Admins, from, body, fee) IN
   /\ steps < MaxSteps /\ steps' = steps + 1
   /\ bal' = r.bal
   /\ lastLoss' = SumOver(bal) - SumOver(r.bal)
-Spec == Init /\ [][Step]_vars
+  /\ last' = [status |-> r.status, kind |-> "transfer"] /\ UNCHANGED <<rec, deliv>>
+
+\* a built-in call with fixed gas: a call that succeeds writes a record without journal and announces a delivery; a
+\* call that fails does so before it writes.  handle.go applyTransaction / applyBxhTransaction / payGasFee
+Call == \E from \in Accts, fee \in Fees, callOK \in BOOLEAN :
+  LET n == steps + 1
+      payLeft == PayAdmins([bal EXCEPT ![from] = 0], Admins, bal[from]) IN
+  /\ steps < MaxSteps /\ steps' = n
+  /\ IF FeeFirst /\ bal[from] < fee
+     THEN \* turned away before the call runs
+          /\ bal' = payLeft /\ UNCHANGED <<rec, deliv>> /\ last' = [status |-> "FAILED", kind |-> "call"]
+     ELSE LET ranRec   == IF callOK THEN rec \cup {n} ELSE rec
+              ranDeliv == IF callOK THEN deliv \cup {n} ELSE deliv IN
+          IF bal[from] >= fee
+          THEN /\ bal' = PayAdmins([bal EXCEPT ![from] = @ - fee], Admins, fee)
+               /\ rec' = ranRec /\ deliv' = ranDeliv
+               /\ last' = [status |-> IF callOK THEN "SUCCESS" ELSE "FAILED", kind |-> "call"]
+          ELSE \* the fee cannot be paid after the call ran: journaled state is taken back, the rest is not
+               /\ bal' = payLeft /\ rec' = ranRec /\ deliv' = ranDeliv
+               /\ last' = [status |-> "FAILED", kind |-> "call"]
+  /\ lastLoss' = SumOver(bal) - SumOver(bal')
+
+Next == Step \/ Call
+Spec == Init /\ [][Next]_vars
 Inv_C14_NoCreation == lastLoss >= 0
 Inv_C14_FeeRounding == lastLoss <= Cardinality(Admins) - 1
 Inv_C14_NonNegative == \A a \in Accts : bal[a] >= 0
+\* C07 / C02: a transaction that FAILED wrote no record and is delivered nowhere
+C07_FailedLeavesNothing == [][last'.status = "FAILED" => (rec' = rec /\ deliv' = deliv)]_vars
 =============================================================================
